@@ -70,7 +70,7 @@ def _direct_deps(rel):
         return _dep_cache[rel]
     txt = (COQ / rel).read_text()
     deps = []
-    for m in re.finditer(r"From\s+CubedV\s+Require\s+(?:Import|Export)?\s*([^.]*(?:\.[A-Za-z][^.\s]*)*)\.", txt):
+    for m in re.finditer(r"From\s+CubedV\s+Require\s+(?:Import|Export)\s+(.*?)\.(?=\s)", txt, re.S):
         for name in m.group(1).split():
             cand = name.replace(".", "/") + ".v"
             if (COQ / cand).exists():
